@@ -527,6 +527,108 @@ def address_grammar_family():
                   detail=(repr(junk), got))
 
 
+# ---------------------------------------------------------------------------
+# C15: urlsplit / params against the assumed contract of urllib.parse
+
+
+class SplitResultModel:
+    """urllib.parse.SplitResult: a 5-field record."""
+
+    def __init__(self, scheme, netloc, path, query, fragment):
+        self.scheme = scheme
+        self.netloc = netloc
+        self.path = path
+        self.query = query
+        self.fragment = fragment
+
+
+class FakeParse:
+    """A-URLLIB: the contract assumed of urllib.parse.urlsplit."""
+
+    def __init__(self, real):
+        self.SplitResult = SplitResultModel
+        self.calls = []
+
+    def urlsplit(self, url, scheme='', allow_fragments=True):
+        self.calls.append((url, scheme, allow_fragments))
+        s, n, p, q, f = (fresh_str('std_scheme'), fresh_str('std_netloc'),
+                         fresh_str('std_path'), fresh_str('std_query'),
+                         fresh_str('std_fragment'))
+        assume('?' not in p)
+        if allow_fragments:
+            assume('#' not in p)
+        self.result = (s, n, p, q, f)
+        return self.result
+
+
+@proof('C15', targets=[(NU, 'urlsplit')], native=False,
+       assumes=['A-URLLIB: urllib.parse.urlsplit returns five strings, its '
+                'path holds no "?" and, when allow_fragments, no "#"; '
+                'SplitResult is a five-field record'])
+def urlsplit_agrees_with_the_standard_library():
+    N = load(NU)
+    fake = FakeParse(N.parse)
+    model(N, 'parse', fake)
+
+    class Rebased(SplitResultModel):
+        # the real class body on the model of its stdlib base
+        params = N._ModifiedSplitResult.params
+    model(N, '_ModifiedSplitResult', Rebased)
+    url = fresh_str('url')
+    scheme = fresh_str('scheme')
+    af = fresh_bool('allow_fragments')
+    r = N.urlsplit(url, scheme, af)
+    check('urlsplit/arguments-passed-through', fake.calls == [(url, scheme, af)])
+    s, n, p, q, f = fake.result
+    check('urlsplit/components', r.scheme == s and r.netloc == n and r.path == p
+          and r.query == q and r.fragment == f)
+
+
+@proof('C15', targets=[(NU, '_ModifiedSplitResult.params')], native=False,
+       assumes=['A-URLLIB: parse_qsl returns a list of (name, value) pairs; '
+                'proved for 0..3 pairs with arbitrary coincidences of names'])
+def params_collects_last_or_all_values():
+    N = load(NU)
+    fake = FakeParse(N.parse)
+    n = pick('pairs', [0, 1, 2, 3])
+    pairs = [(fresh_str('name%d' % i), fresh_str('value%d' % i))
+             for i in range(n)]
+    seen = []
+
+    def parse_qsl(q):
+        seen.append(q)
+        return list(pairs)
+    fake.parse_qsl = parse_qsl
+    model(N, 'parse', fake)
+
+    class Rebased(SplitResultModel):
+        params = N._ModifiedSplitResult.params
+    query = fresh_str('query')
+    r = Rebased(fresh_str('s'), fresh_str('n'), fresh_str('p'), query,
+                fresh_str('f'))
+    collapse = pick('collapse', ['default', True, False])
+    got = r.params() if collapse == 'default' else r.params(collapse)
+    if query == '':
+        check('params/empty-query-no-parameters', got == {} and seen == [])
+        return
+    check('params/parses-the-query-once', seen == [query])
+    names = []
+    for k, _v in pairs:
+        if not any([k == x for x in names]):
+            names.append(k)
+    check('params/one-entry-per-name', len(got) == len(names)
+          and all([k in got for k in names]))
+    for k in names:
+        vals = [v for (kk, v) in pairs if kk == k]
+        if collapse is False:
+            if len(vals) == 1:
+                check('params/single-value-kept-bare', got[k] == vals[0])
+            else:
+                check('params/all-values-in-order', got[k] == vals)
+        else:
+            check('params/last-value-wins', got[k] == vals[-1])
+
+
 @bounded('C15', targets=[(NU, 'get_ipv6_addr_by_EUI64'),
                          (NU, 'get_mac_addr_by_ipv6'),
                          (NU, 'parse_host_port'), (NU, 'escape_ipv6'),
@@ -668,6 +770,24 @@ def itertools_product(*lists):
 
 
 CANARIES = [
+    dict(name='urlsplit-fragment-split-ignores-allow-fragments', prop='C15',
+         file=NU, proofs=['urlsplit_agrees_with_the_standard_library'],
+         old="    if allow_fragments and '#' in path:",
+         new="    if '#' in path:", expect='urlsplit/components'),
+    dict(name='urlsplit-arguments-swapped', prop='C15',
+         file=NU, proofs=['urlsplit_agrees_with_the_standard_library'],
+         old="        url, scheme, allow_fragments)",
+         new="        url, scheme, True)", expect='urlsplit/'),
+    dict(name='params-collapse-keeps-the-first-value', prop='C15',
+         file=NU, proofs=['params_collects_last_or_all_values'],
+         old="                return dict(parse.parse_qsl(self.query))",
+         new="                return dict(reversed(parse.parse_qsl(self.query)))",
+         expect='params/last-value-wins'),
+    dict(name='params-third-value-replaces-the-list', prop='C15',
+         file=NU, proofs=['params_collects_last_or_all_values'],
+         old="                        if isinstance(params[key], list):",
+         new="                        if isinstance(params[key], tuple):",
+         expect='params/all-values'),
     dict(name='cidr-except-narrowed', prop='C11', file=NU,
          proofs=['validators_never_raise_for_strings'],
          old="        netaddr.IPNetwork(address)\n    except (TypeError, ValueError, netaddr.AddrFormatError):",
